@@ -82,7 +82,10 @@ func TestC01(t *testing.T) {
 					ev.Class("run-on-CPUs-created-with-InitFrom")
 				}
 				var st lockstepStats
-				err := rig.Safe(func() error { return runLockstep(&c, syn, []rig.CPU{pri, alt}, &st) })
+				err := rig.Safe(func() error {
+					defer r.Deadman("lockstep", &c)()
+					return runLockstep(&c, syn, []rig.CPU{pri, alt}, &st)
+				})
 				if err != nil {
 					r.Fail(t, "lockstep", c, err)
 				}
